@@ -54,6 +54,7 @@ type Outcome struct {
 type Item struct {
 	T  string    `json:"t"`            // publish tick loop restart
 	NE bool      `json:"ne,omitempty"` // publish: with transactions
+	N  int       `json:"n,omitempty"`  // publish: n > 1 = a run of n blocks of this kind committed in a row (idle stretch when ne is false); one model item HPublishN per maximal run of equal observed kinds
 	TX int       `json:"tx,omitempty"` // publish with transactions: 0 = fresh random transactions, n > 0 = the fixed transaction list no. n (so that several blocks of a chain carry IDENTICAL transaction lists)
 	K  string    `json:"k,omitempty"`  // tick: "h" | "d"
 	SC []Outcome `json:"sc,omitempty"` // tick: DA answers (then cancellation);  loop: answers to header calls
@@ -187,6 +188,121 @@ func genHistory(r *rand.Rand, maxLen int) (uint64, []Item) {
 		h = append(h, Item{T: "tick", K: "h", SC: all}, Item{T: "tick", K: "d", SC: all})
 	}
 	return init, h
+}
+
+// long-stretch stream: the chain stays idle (blocks without transactions) — or busy — for 100..600 blocks in a
+// row above a watermark, then blocks with transactions arrive; DA outages in between leave hundreds of headers
+// pending.  Anything that bounds, windows, pages or truncates the pending range (watermark, height] — per call,
+// per tick, by count or by a narrow counter — shows here and nowhere in the 0..30 block chains above: the data
+// watermark only moves on an accepted NON-empty data blob, the header watermark on every accepted header.
+// The stretch is one history item (publish with n), written to the case file as the run-length item HPublishN
+// which expands inside Coq.
+const acceptEverything = 100000
+
+func acceptAll(n int) []Outcome {
+	var sc []Outcome
+	for i := 0; i < n; i++ {
+		sc = append(sc, Outcome{O: "accept", K: acceptEverything})
+	}
+	return sc
+}
+
+// a short DA outage (or none), then acceptance of everything / of a prefix and then everything
+func genLongScript(r *rand.Rand) []Outcome {
+	var sc []Outcome
+	switch x := r.Intn(100); {
+	case x < 40:
+	case x < 80:
+		for i, n := 0, 1+r.Intn(3); i < n; i++ {
+			sc = append(sc, Outcome{O: "fail", F: fkinds[r.Intn(len(fkinds)-2)]}) // not the 60 s deadline: keep virtual time short
+		}
+	case x < 90:
+		sc = append(sc, Outcome{O: "acklost", K: uint64(1 + r.Intn(150)), F: "err"})
+	default:
+		sc = append(sc, Outcome{O: "accept", K: uint64(1 + r.Intn(150))})
+	}
+	return append(sc, Outcome{O: "accept", K: acceptEverything})
+}
+
+func genLong(r *rand.Rand, idx int) (uint64, []Item) {
+	closingPhase := func(h []Item) []Item {
+		// the DA layer accepts from here on: the unmodified loops for a while, then one iteration of each kind
+		return append(h, Item{T: "loop", SC: acceptAll(8), SD: acceptAll(8)},
+			Item{T: "tick", K: "h", SC: acceptAll(1)}, Item{T: "tick", K: "d", SC: acceptAll(1)})
+	}
+	if idx == 0 {
+		// always present: transactions, everything on the DA layer; the chain stays idle for 150 blocks; two blocks
+		// with transactions; a data iteration, a header iteration, then the closing phase
+		h := []Item{{T: "publish", NE: true}, {T: "publish", NE: true},
+			{T: "tick", K: "h", SC: acceptAll(1)}, {T: "tick", K: "d", SC: acceptAll(1)},
+			{T: "publish", N: 150}, {T: "publish", NE: true}, {T: "publish", NE: true},
+			{T: "tick", K: "d", SC: acceptAll(1)}, {T: "tick", K: "h", SC: acceptAll(1)}}
+		return 1, closingPhase(h)
+	}
+	init := []uint64{1, 1, 2, 7}[r.Intn(4)]
+	lens := []int{100, 101, 128, 199, 200, 255, 256, 257, 300, 600}
+	var h []Item
+	tick := func(k string) { h = append(h, Item{T: "tick", K: k, SC: genLongScript(r)}) }
+	if r.Intn(2) == 0 { // a few blocks first, on the DA layer or not
+		for i, n := 0, 1+r.Intn(3); i < n; i++ {
+			h = append(h, Item{T: "publish", NE: r.Intn(2) == 0})
+		}
+		if r.Intn(2) == 0 {
+			tick("h")
+		}
+		if r.Intn(2) == 0 {
+			tick("d")
+		}
+	}
+	total := 0
+	for seg, nseg := 0, 1+r.Intn(2); seg < nseg; seg++ {
+		n := lens[r.Intn(len(lens))]
+		if r.Intn(3) == 0 {
+			n = 100 + r.Intn(501)
+		}
+		if total+n > 800 {
+			n = 100 + r.Intn(28)
+		}
+		total += n
+		h = append(h, Item{T: "publish", N: n, NE: r.Intn(100) < 12}) // mostly idle stretches; sometimes a busy one
+		switch x := r.Intn(100); {
+		case x < 25: // only the headers of the stretch reach the DA layer before transactions arrive
+			tick("h")
+		case x < 40: // the DA layer is down for a whole submitToDA call (> maxSubmitAttempts failures): everything stays pending
+			var sc []Outcome
+			for i := 0; i < 31; i++ {
+				sc = append(sc, Outcome{O: "fail", F: "err"})
+			}
+			h = append(h, Item{T: "tick", K: "h", SC: sc})
+		case x < 50:
+			tick("d")
+		}
+		for j, k := 0, 1+r.Intn(3); j < k; j++ {
+			h = append(h, Item{T: "publish", NE: true})
+		}
+		if r.Intn(4) == 0 {
+			h = append(h, Item{T: "restart"})
+		}
+		switch x := r.Intn(100); {
+		case x < 35:
+			tick("d")
+			tick("h")
+		case x < 60:
+			tick("h")
+			tick("d")
+		case x < 75:
+			tick("d")
+		case x < 85:
+			h = append(h, Item{T: "loop", SC: genLongScript(r), SD: genLongScript(r)})
+		}
+		if r.Intn(3) == 0 {
+			h = append(h, Item{T: "publish", NE: r.Intn(2) == 0})
+		}
+	}
+	if r.Intn(4) == 0 {
+		h = append(h, Item{T: "restart"})
+	}
+	return init, closingPhase(h)
 }
 
 // ---- doubles -----------------------------------------------------------------------------------
@@ -453,6 +569,7 @@ func (w *world) height() uint64 {
 // ---- running one history -------------------------------------------------------------------------
 
 type itemOut struct {
+	hitem   bool // coqItem is already a term of type hitem (run-length item); otherwise an item, wrapped in HI
 	coqItem string
 	res     int // 0 idle 1 nothing 2 geterr 3 nil 4 err; -1 = not compared
 	elapsed int64
@@ -513,6 +630,12 @@ type oracle struct {
 	prevVol    map[string]uint64
 	prevMeta   map[string]uint64
 	getErrSeen bool
+	judged     map[string]verdict // kind + blob bytes -> verdict (committed blocks are immutable, so is the verdict)
+}
+
+type verdict struct {
+	h   uint64
+	why string
 }
 
 func (o *oracle) fail(sig, what string) {
@@ -542,6 +665,19 @@ func (w *world) committed(h uint64) (*types.SignedHeader, *types.Data, bool) {
 // the decoded item must equal the committed one of that height in the block store (data: including the
 // metadata).  Returns the height the blob claims and "" or the failure class.
 func (o *oracle) judge(kind string, blob []byte) (uint64, string) {
+	key := kind + string(blob)
+	if v, ok := o.judged[key]; ok {
+		return v.h, v.why
+	}
+	h, why := o.judge1(kind, blob)
+	if o.judged == nil {
+		o.judged = map[string]verdict{}
+	}
+	o.judged[key] = verdict{h, why}
+	return h, why
+}
+
+func (o *oracle) judge1(kind string, blob []byte) (uint64, string) {
 	w := o.w
 	if kind == "h" {
 		var sh types.SignedHeader
@@ -720,27 +856,79 @@ func closing(h []Item) bool {
 	return full(h[n-2], "h") && full(h[n-1], "d")
 }
 
-func (o *oracle) eventually(init uint64) {
+// what is still missing on the DA layer: "" when every committed header and every committed non-empty data is
+// there (faithful blob accepted) and the header watermark is at the chain height
+func (o *oracle) missing() string {
 	w := o.w
 	top := w.height()
 	if top < w.gen.InitialHeight {
-		return // nothing committed
+		return "" // nothing committed
 	}
 	hs, dset := o.acceptedSet("h"), o.acceptedSet("d")
-	missing := ""
 	for h := w.gen.InitialHeight; h <= top; h++ {
 		if !hs[h] {
-			missing = fmt.Sprintf("header %d", h)
-			break
+			return fmt.Sprintf("header %d", h)
 		}
 		if w.nonEmpty(h) && !dset[h] {
-			missing = fmt.Sprintf("data %d", h)
-			break
+			return fmt.Sprintf("data %d", h)
 		}
 	}
-	hv, _ := w.watermark("h")
-	if missing == "" && hv != top {
-		missing = fmt.Sprintf("header watermark %d != height %d", hv, top)
+	if hv, _ := w.watermark("h"); hv != top {
+		return fmt.Sprintf("header watermark %d != height %d", hv, top)
+	}
+	return ""
+}
+
+// one more iteration of the header / data submission loop body against a DA layer that accepts everything
+// (oracle only: made after the history ended, not part of the trace compared with the model)
+func (w *world) iterateAccepting(kind string) {
+	w.da.anyKind = true
+	w.da.script["*"] = acceptAll(30) // more answers than one submitToDA call can use (the script's end is a cancellation)
+	if kind == "h" {
+		if w.m.VerifNumPendingHeaders() == 0 {
+			return
+		}
+		if hs, err := w.m.VerifGetPendingHeaders(w.ctx); err == nil && len(hs) > 0 {
+			_ = w.m.VerifSubmitHeadersToDA(w.ctx, hs)
+		}
+		return
+	}
+	if w.m.VerifNumPendingData() == 0 {
+		return
+	}
+	if sds, err := w.m.VerifCreateSignedDataToSubmit(w.ctx); err == nil && len(sds) > 0 {
+		_ = w.m.VerifSubmitDataToDA(w.ctx, sds)
+	}
+}
+
+// Liveness, judged when the history ends with an accepting phase: "submission is retried until accepted".  If
+// something committed is still missing after the closing iterations, the DA layer keeps accepting and the node
+// gets further iterations of both loops for as long as they make ANY progress (a blob accepted, a watermark
+// moved).  It is a violation when an iteration of each loop against an accepting DA layer makes no progress
+// while a committed header / non-empty data is still not on the DA layer: nothing will ever change again.
+func (o *oracle) eventually(init uint64) {
+	w := o.w
+	top := w.height()
+	missing := o.missing()
+	if missing == "" {
+		return
+	}
+	measure := func() uint64 {
+		hv, _ := w.watermark("h")
+		dv, _ := w.watermark("d")
+		return uint64(len(o.acceptedSet("h"))+len(o.acceptedSet("d"))) + hv + dv
+	}
+	rounds := 0
+	for limit := 2*int(top) + 4; missing != "" && rounds < limit; {
+		rounds++
+		before := measure()
+		w.iterateAccepting("h")
+		w.iterateAccepting("d")
+		o.afterItem(false)
+		missing = o.missing()
+		if measure() == before {
+			break
+		}
 	}
 	if missing == "" {
 		return
@@ -748,7 +936,7 @@ func (o *oracle) eventually(init uint64) {
 	if init > 1 && len(w.da.calls) == 0 && o.getErrSeen {
 		o.fail("initial-height-gt1-nothing-submitted", fmt.Sprintf("initial height %d, chain height %d: the pending range starts at height 1, getPending fails, no DA call is ever made (%s never submitted although the DA layer accepts)", init, top, missing))
 	} else {
-		o.fail("not-submitted-although-da-accepts", fmt.Sprintf("initial height %d, chain height %d: %s missing on the DA layer after an iteration against an accepting DA layer", init, top, missing))
+		o.fail("not-submitted-although-da-accepts", fmt.Sprintf("initial height %d, chain height %d: %s missing on the DA layer, and a further iteration of each submission loop against an accepting DA layer makes no progress (%d further rounds tried after the closing iterations)", init, top, missing, rounds))
 	}
 }
 
@@ -782,35 +970,59 @@ func runCase(seed int64, c int, init uint64, hist []Item, rootDir string) (res *
 	for _, it := range hist {
 		switch it.T {
 		case "publish":
-			before := w.height()
-			if it.NE {
-				n := 1 + r.Intn(3)
-				var txs [][]byte
-				for i := 0; i < n; i++ {
-					tx := make([]byte, 1+r.Intn(24))
-					r.Read(tx)
-					txs = append(txs, tx)
+			n := it.N
+			if n < 1 {
+				n = 1
+			}
+			var kinds []bool
+			for j := 0; j < n; j++ {
+				before := w.height()
+				if it.NE {
+					n := 1 + r.Intn(3)
+					var txs [][]byte
+					for i := 0; i < n; i++ {
+						tx := make([]byte, 1+r.Intn(24))
+						r.Read(tx)
+						txs = append(txs, tx)
+					}
+					if it.TX > 0 { // a fixed list: blocks with the same TX have identical transaction lists
+						txs = [][]byte{[]byte(fmt.Sprintf("pool-%d-a", it.TX)), []byte(fmt.Sprintf("pool-%d-b", it.TX))}
+					}
+					w.seq.next = txs
+				} else {
+					w.seq.next = nil
 				}
-				if it.TX > 0 { // a fixed list: blocks with the same TX have identical transaction lists
-					txs = [][]byte{[]byte(fmt.Sprintf("pool-%d-a", it.TX)), []byte(fmt.Sprintf("pool-%d-b", it.TX))}
+				if err := w.m.VerifPublishBlock(w.ctx); err != nil {
+					res.err = fmt.Errorf("publish failed: %w", err)
+					return
 				}
-				w.seq.next = txs
+				if w.height() != before+1 {
+					res.err = fmt.Errorf("publish did not commit a block (height %d -> %d)", before, w.height())
+					return
+				}
+				ne := w.nonEmpty(before + 1)
+				res.chain = append(res.chain, ne)
+				kinds = append(kinds, ne)
+			}
+			if it.N <= 1 {
+				io := itemOut{coqItem: "IPublish " + vgen.Bool(kinds[0]), res: -1}
+				mark(&io, true, "")
+				res.outs = append(res.outs, io)
 			} else {
-				w.seq.next = nil
+				// one run-length model item per maximal run of equal OBSERVED kinds; the watermarks are observed after the last
+				for a := 0; a < len(kinds); {
+					b := a
+					for b < len(kinds) && kinds[b] == kinds[a] {
+						b++
+					}
+					io := itemOut{hitem: true, coqItem: "HPublishN " + vgen.Bool(kinds[a]) + " " + vgen.N(uint64(b-a)), res: -1}
+					if b == len(kinds) {
+						mark(&io, true, "")
+					}
+					res.outs = append(res.outs, io)
+					a = b
+				}
 			}
-			if err := w.m.VerifPublishBlock(w.ctx); err != nil {
-				res.err = fmt.Errorf("publish failed: %w", err)
-				return
-			}
-			if w.height() != before+1 {
-				res.err = fmt.Errorf("publish did not commit a block (height %d -> %d)", before, w.height())
-				return
-			}
-			ne := w.nonEmpty(before + 1)
-			res.chain = append(res.chain, ne)
-			io := itemOut{coqItem: "IPublish " + vgen.Bool(ne), res: -1}
-			mark(&io, true, "")
-			res.outs = append(res.outs, io)
 			or.afterItem(false)
 		case "restart":
 			if err := w.start(); err != nil {
@@ -896,7 +1108,20 @@ func runCase(seed int64, c int, init uint64, hist []Item, rootDir string) (res *
 			go func() { defer wg.Done(); m.HeaderSubmissionLoop(ctxH) }()
 			go func() { defer wg.Done(); m.DataSubmissionLoop(ctxD) }()
 			// virtual time: long enough for every scripted answer (60 s deadline answers, 2 s backoffs)
-			time.Sleep(time.Duration(len(it.SC)+len(it.SD)+4) * 64 * time.Second)
+			sleep := time.Duration(len(it.SC)+len(it.SD)+4) * 64 * time.Second
+			if w.height() > 60 {
+				// long chains: an idle tick of the data loop re-reads the whole pending range, so do not idle for
+				// longer than the script can take: per answer <= 2 s backoff + 1 s to the next tick (+ 60 s when the
+				// DA client sits on the request until the submit deadline)
+				sleep = 8 * time.Second
+				for _, o := range append(append([]Outcome{}, it.SC...), it.SD...) {
+					sleep += 4 * time.Second
+					if o.F == "deadline" {
+						sleep += 61 * time.Second
+					}
+				}
+			}
+			time.Sleep(sleep)
 			cancelH()
 			cancelD()
 			wg.Wait()
@@ -923,14 +1148,15 @@ func runCase(seed int64, c int, init uint64, hist []Item, rootDir string) (res *
 			or.afterItem(false)
 		}
 	}
-	or.checkCalls()
+	traceCalls := len(w.da.calls) // the calls of the history; the liveness oracle may add iterations of its own
 	if closing(hist) {
 		or.eventually(init)
 	}
+	or.checkCalls()
 	res.viol, res.what = append(res.viol, or.viol...), append(res.what, or.what...)
 	res.height = w.height()
-	res.ncalls = len(w.da.calls)
-	for _, c := range w.da.calls {
+	res.ncalls = traceCalls
+	for _, c := range w.da.calls[:traceCalls] {
 		if c.out.O == "acklost" && c.accepted > 0 {
 			res.nAckLost++
 		}
@@ -948,7 +1174,22 @@ func runCase(seed int64, c int, init uint64, hist []Item, rootDir string) (res *
 	return
 }
 
+// a list of heights as a Coq term; long lists in run-length form (Check.SubmitterCheck.runs, expanded in Coq)
 func nlist(xs []uint64) string {
+	if len(xs) > 12 {
+		var rs []string
+		for a := 0; a < len(xs); {
+			b := a + 1
+			for b < len(xs) && xs[b] == xs[b-1]+1 {
+				b++
+			}
+			rs = append(rs, "("+vgen.N(xs[a])+", "+vgen.N(uint64(b-a))+")")
+			a = b
+		}
+		if len(rs)*2 < len(xs) {
+			return "(runs " + vgen.List(rs) + ")"
+		}
+	}
 	s := make([]string, len(xs))
 	for i, x := range xs {
 		s[i] = vgen.N(x)
@@ -998,6 +1239,30 @@ func hasSig(r *caseResult, sig string) bool {
 	return false
 }
 
+// second shrinking pass: the length of every publish run, by bisection (smallest length that still fails,
+// assuming the failure is monotone in the length; every accepted step was re-run and failed)
+func shrinkRuns(h []Item, fails func([]Item) bool) []Item {
+	h = append([]Item{}, h...)
+	for i := range h {
+		if h[i].T != "publish" || h[i].N <= 1 {
+			continue
+		}
+		lo, hi := 1, h[i].N // invariant: hi fails
+		for lo < hi {
+			mid := (lo + hi) / 2
+			try := append([]Item{}, h...)
+			try[i].N = mid
+			if fails(try) {
+				hi = mid
+			} else {
+				lo = mid + 1
+			}
+		}
+		h[i].N = hi
+	}
+	return h
+}
+
 func caseRng(seed int64, c int) *rand.Rand { return rand.New(rand.NewSource(seed*1000003 + int64(c))) }
 
 func TestVerif(t *testing.T) {
@@ -1014,6 +1279,7 @@ func TestVerif(t *testing.T) {
 		c    int
 		init uint64
 		hist []Item
+		long bool // the long-stretch stream (genLong)
 	}
 	var jobs []job
 	if e.Replay != "" {
@@ -1021,7 +1287,7 @@ func TestVerif(t *testing.T) {
 		if err := vgen.LoadReplay(e.Replay, &rp); err != nil {
 			t.Fatal(err)
 		}
-		jobs = append(jobs, job{rp.Seed, rp.Case, rp.Init, rp.History})
+		jobs = append(jobs, job{seed: rp.Seed, c: rp.Case, init: rp.Init, hist: rp.History})
 	} else {
 		files, _ := filepath.Glob("../corpus/C06/*.json")
 		if os.Getenv("VERIF_NO_CORPUS") != "" {
@@ -1030,8 +1296,19 @@ func TestVerif(t *testing.T) {
 		for _, f := range files {
 			var rp Replay
 			if vgen.LoadReplay(f, &rp) == nil {
-				jobs = append(jobs, job{rp.Seed, rp.Case, rp.Init, rp.History})
+				jobs = append(jobs, job{seed: rp.Seed, c: rp.Case, init: rp.Init, hist: rp.History})
 			}
+		}
+		// the long-stretch stream: nLong cases per run (quick) / per shard (thorough), the first one fixed
+		nLong := 6
+		if e.Tier == "thorough" {
+			nLong = 14
+		}
+		if e.N < 20 { // witness re-runs and other tiny runs
+			nLong = 0
+		}
+		for c := 0; c < nLong; c++ {
+			jobs = append(jobs, job{seed: e.Seed, c: 1000000 + c, long: true})
 		}
 		for c := 0; c < e.N; c++ {
 			jobs = append(jobs, job{seed: e.Seed, c: c})
@@ -1045,7 +1322,10 @@ func TestVerif(t *testing.T) {
 	distinct := map[string]bool{}
 	for ji, j := range jobs {
 		init, hist := j.init, j.hist
-		if hist == nil {
+		if hist == nil && j.long {
+			init, hist = genLong(caseRng(j.seed, j.c), j.c-1000000)
+			res.Count("stream:long-stretch")
+		} else if hist == nil {
 			init, hist = genHistory(caseRng(j.seed, j.c), maxLen)
 		}
 		cr := runBubble(t, j.seed, j.c, init, hist, rootDir)
@@ -1060,6 +1340,13 @@ func TestVerif(t *testing.T) {
 			switch it.T {
 			case "publish":
 				npub++
+				if it.N >= 100 {
+					if it.NE {
+						res.Count("publish-run:>=100-blocks-with-txs")
+					} else {
+						res.Count("publish-run:>=100-empty-blocks")
+					}
+				}
 			case "restart":
 				nrestart++
 			case "loop":
@@ -1105,7 +1392,11 @@ func TestVerif(t *testing.T) {
 		}
 		var items, outs []string
 		for _, o := range cr.outs {
-			items = append(items, o.coqItem)
+			if o.hitem {
+				items = append(items, o.coqItem)
+			} else {
+				items = append(items, "HI ("+o.coqItem+")")
+			}
 			outs = append(outs, o.coq())
 		}
 		hc := fmt.Sprintf("%d|%s", init, strings.Join(items, ";"))
@@ -1114,13 +1405,15 @@ func TestVerif(t *testing.T) {
 		}
 		rp := Replay{Seed: j.seed, Case: j.c, Init: init, History: hist}
 		for vi, sig := range cr.viol {
-			sh := vgen.Shrink(hist, func(h []Item) bool {
+			stillFails := func(h []Item) bool {
 				if len(h) == 0 {
 					return false
 				}
 				r2 := runBubble(t, j.seed, j.c, init, h, rootDir)
 				return r2.err == nil && hasSig(r2, sig)
-			})
+			}
+			sh := vgen.Shrink(hist, stillFails)
+			sh = shrinkRuns(sh, stillFails)
 			res.Violations = append(res.Violations, vgen.Violation{Signature: sig, What: cr.what[vi], Case: ji,
 				Replay: Replay{Seed: j.seed, Case: j.c, Init: init, History: sh}})
 		}
@@ -1134,7 +1427,7 @@ func TestVerif(t *testing.T) {
 		}
 	}
 	res.Distinct = len(distinct)
-	res.Rule = "real aggregator Manager (NewManager, real store/signer/publishBlockInternal) commits 0..30 blocks (30% requested empty; the first block is always the stored genesis block, empty) with initial height 1 (76%), 2 or 7; in 45% of the histories most non-empty blocks draw their transaction list from a pool of two (identical lists in several, also consecutive, blocks; 15% start with two or three such blocks pending together, optionally across a restart); histories of 3..maxLen items: publish bursts, single header/data submission iterations through the hooks, the unmodified HeaderSubmissionLoop+DataSubmissionLoop goroutines, restarts (NewManager on the same datastore); every DA call answered from a script over {accept all, accept k of n, not-included, in-mempool, too-big, error, deadline(60 s), account-sequence, accepted-but-error k (ack lost), cancel as context.Canceled or as the DA sentinel ErrContextCanceled}, 6% of scripts with a fault burst of 28..33 answers (> maxSubmitAttempts); script end = context cancellation; 70% of histories end with an accepting phase on which the liveness clause is judged; all in synctest bubbles (virtual time; elapsed backoff time is compared); non-trivial = at least one block and one DA call; distinct = distinct (initial height, model history) terms"
+	res.Rule = "real aggregator Manager (NewManager, real store/signer/publishBlockInternal) commits 0..30 blocks in the main stream (30% requested empty; the first block is always the stored genesis block, empty) with initial height 1 (76%), 2 or 7; in 45% of the histories most non-empty blocks draw their transaction list from a pool of two (identical lists in several, also consecutive, blocks; 15% start with two or three such blocks pending together, optionally across a restart); histories of 3..maxLen items: publish bursts, single header/data submission iterations through the hooks, the unmodified HeaderSubmissionLoop+DataSubmissionLoop goroutines, restarts (NewManager on the same datastore); every DA call answered from a script over {accept all, accept k of n, not-included, in-mempool, too-big, error, deadline(60 s), account-sequence, accepted-but-error k (ack lost), cancel as context.Canceled or as the DA sentinel ErrContextCanceled}, 6% of scripts with a fault burst of 28..33 answers (> maxSubmitAttempts); script end = context cancellation; 70% of histories end with an accepting phase on which the liveness clause is judged (if a committed header / non-empty data is still missing after it, the oracle keeps giving the node accepting iterations of both loop bodies for as long as they make any progress, and fails when one makes none); plus the long-stretch stream (6 cases per run, 14 per thorough shard, the first one fixed): initial height 1, 2 or 7, one or two stretches of 100..600 blocks of one kind committed in a row (88% without transactions = idle chain; lengths from {100,101,128,199,200,255,256,257,300,600} or uniform 100..600; one run-length item, HPublishN in the case file, expanded inside Coq) above the watermarks, each followed by 1..3 blocks with transactions, with header / data iterations before, between and after (scripts: accept all, a DA outage of 1..3 failures, acknowledgement lost for 1..150 blobs, a prefix of 1..150 blobs accepted, then acceptance; or an outage of 31 failures = a whole submitToDA call lost with hundreds of headers pending), restarts, the unmodified loops, and a closing phase (loops with 8 accepting answers each, then one accepting iteration of each kind) on which liveness is judged; long height lists are written as runs (Check.SubmitterCheck.runs); all in synctest bubbles (virtual time; elapsed backoff time is compared); non-trivial = at least one block and one DA call; distinct = distinct (initial height, model history) terms"
 	res.Cases = len(cases)
 	header := "From Coq Require Import NArith List Bool.\nFrom Verif Require Import Model.Submitter Check.SubmitterCheck."
 	path := filepath.Join(e.Out, "cases_C06.v")
